@@ -65,11 +65,13 @@ def apply_bvm(bits, e):
 def gen_bv(tier, rnd, stats):
     cfg = "Gen_bv_%s.cfg" % tier
     behs, states, trans, dt = tlc_behaviours(cfg, "MC_LibBV.tla")
-    stats["mc"].append({"cfg": cfg, "role": "behaviour generator", "states": states, "transitions": trans, "behaviours": len(behs), "wall_s": round(dt, 1)})
+    replayed = behs if len(behs) <= 6000 else rnd.sample(behs, 6000)
+    stats["mc"].append({"cfg": cfg, "role": "behaviour generator", "states": states, "transitions": trans, "behaviours": len(behs),
+                        "behaviours_replayed": len(replayed), "wall_s": round(dt, 1)})
     stats["states"] += states
     stats["transitions"] += trans
     b = Beh()
-    for hist in behs:
+    for hist in replayed:
         b.reset()
         o = b.newb("BVM", "bvm_new")
         bits = []
